@@ -21,6 +21,9 @@ use std::sync::Mutex;
 pub struct Loaders {
     pub mode: String,
     dbs: HashMap<String, TimeZoneDatabase>,
+    /// every name each database serves (not only the zones the drivers probe)
+    names: HashMap<String, Vec<String>>,
+    asked: std::collections::HashSet<String>,
 }
 
 static STATE: Mutex<Option<Loaders>> = Mutex::new(None);
@@ -61,12 +64,14 @@ pub fn build_concatenated(zones: &[&ZoneSrc]) -> Vec<u8> {
 pub fn init(a: &Args, zones: &mut Vec<ZoneSrc>) {
     let mode = a.opt("loader").unwrap_or_else(|| "bytes".into());
     let mut dbs = HashMap::new();
+    let mut names: HashMap<String, Vec<String>> = HashMap::new();
     match mode.as_str() {
         "bytes" => {}
         "posix-print" => zones.retain(|z| z.class == "posix-string"),
         "bundled" => {
             zones.retain(|z| z.class == "bundled");
             dbs.insert("bundled".to_string(), TimeZoneDatabase::bundled());
+            names.insert("bundled".to_string(), jiff_tzdb::available().map(|n| jiff_tzdb::get(n).map(|x| x.0.to_string()).unwrap_or_default()).collect());
         }
         "static" => {
             let have: Vec<(String, String)> = crate::statz::statics().iter().map(|(c, n, _)| (c.to_string(), n.to_string())).collect();
@@ -78,7 +83,16 @@ pub fn init(a: &Args, zones: &mut Vec<ZoneSrc>) {
             classes.sort();
             classes.dedup();
             for c in classes {
-                let zs: Vec<&ZoneSrc> = zones.iter().filter(|z| z.class == c).collect();
+                // the database holds every zone of the class (all names, links included), so that
+                // name lookups meet the whole index; the drivers probe the corpus only
+                let full: Vec<ZoneSrc> = match c.as_str() {
+                    "bundled" => crate::tzcorpus::bundled(),
+                    "system" => crate::tzcorpus::system(),
+                    _ => zones.iter().filter(|z| z.class == c).map(|z| ZoneSrc { name: z.name.clone(), class: z.class.clone(), bytes: z.bytes.clone() }).collect(),
+                };
+                let full: Vec<ZoneSrc> = full.into_iter().filter(|z| z.name.len() <= 40 && !z.name.contains("..")).collect();
+                let zs: Vec<&ZoneSrc> = full.iter().collect();
+                names.insert(c.clone(), full.iter().map(|z| z.name.clone()).collect());
                 if mode == "dir" {
                     let root: PathBuf = a.out.join("zdir").join(&c);
                     let _ = std::fs::remove_dir_all(&root);
@@ -97,7 +111,7 @@ pub fn init(a: &Args, zones: &mut Vec<ZoneSrc>) {
         }
         other => panic!("unknown loader {other}"),
     }
-    *STATE.lock().unwrap() = Some(Loaders { mode, dbs });
+    *STATE.lock().unwrap() = Some(Loaders { mode, dbs, names, asked: Default::default() });
 }
 
 pub fn load(z: &ZoneSrc) -> Result<TimeZone, String> {
@@ -135,32 +149,55 @@ pub fn load(z: &ZoneSrc) -> Result<TimeZone, String> {
 /// Name lookups through the selected database: every case variant must find
 /// the zone and report the canonical spelling.
 pub fn lookups(z: &ZoneSrc) -> Vec<serde_json::Value> {
-    let st = STATE.lock().unwrap();
-    let Some(l) = st.as_ref() else { return vec![] };
-    let Some(db) = l.dbs.get(if l.mode == "bundled" { "bundled" } else { z.class.as_str() }) else { return vec![] };
-    let canon = match guard(|| db.get(&z.name)) {
-        Ok(Ok(tz)) => tz,
-        _ => return vec![],
-    };
-    let mut out = Vec::new();
-    let variants = [
-        z.name.to_ascii_uppercase(),
-        z.name.to_ascii_lowercase(),
-        z.name.chars().enumerate().map(|(i, c)| if i % 2 == 0 { c.to_ascii_uppercase() } else { c.to_ascii_lowercase() }).collect::<String>(),
-    ];
-    for v in variants {
-        let r = guard(|| db.get(&v));
-        let (st, got, same) = match &r {
-            Ok(Ok(tz)) => ("ok", tz.iana_name().unwrap_or("").to_string(), *tz == canon),
-            Ok(Err(_)) => ("err", String::new(), false),
-            Err(_) => ("panic", String::new(), false),
-        };
-        out.push(serde_json::json!({"op":"lookup","cls":"name-case","loader":l.mode,"asked":crate::text::codes(&v),"want":crate::text::codes(&z.name),
-                                    "st":st,"got":crate::text::codes(&got),"same": if same {1} else {0},"s":v}));
+    let mut st = STATE.lock().unwrap();
+    let Some(l) = st.as_mut() else { return vec![] };
+    let key = if l.mode == "bundled" { "bundled".to_string() } else { z.class.clone() };
+    if !l.asked.insert(key.clone()) {
+        return vec![];
     }
-    // the database lists the zone under its canonical spelling
-    let listed = guard(|| db.available().any(|n| n.as_str() == z.name)).unwrap_or(false);
-    out.push(serde_json::json!({"op":"lookup","cls":"available","loader":l.mode,"asked":crate::text::codes(&z.name),"want":crate::text::codes(&z.name),
-                                "st": if listed {"ok"} else {"err"},"got":crate::text::codes(&z.name),"same":1,"s":z.name}));
+    let Some(db) = l.dbs.get(&key) else { return vec![] };
+    let mut out = Vec::new();
+    let listed: Vec<String> = guard(|| db.available().map(|n| n.as_str().to_string()).collect()).unwrap_or_default();
+    for name in l.names.get(&key).cloned().unwrap_or_default() {
+        let canon = match guard(|| db.get(&name)) {
+            Ok(Ok(tz)) => tz,
+            other => {
+                out.push(serde_json::json!({"op":"lookup","cls":"name-exact","loader":l.mode,"asked":crate::text::codes(&name),"want":crate::text::codes(&name),
+                                            "st": if other.is_err() {"panic"} else {"err"},"got":[],"same":0,"s":name}));
+                continue;
+            }
+        };
+        let variants = [
+            name.to_ascii_uppercase(),
+            name.to_ascii_lowercase(),
+            name.chars().enumerate().map(|(i, c)| if i % 2 == 0 { c.to_ascii_uppercase() } else { c.to_ascii_lowercase() }).collect::<String>(),
+        ];
+        for v in variants {
+            let r = guard(|| db.get(&v));
+            let (st, got, same) = match &r {
+                // the same zone by behaviour (Eq on TimeZone also tells apart how a zone is stored:
+                // "UTC" is answered with the built-in UTC zone, "utc" with the file of that name)
+                Ok(Ok(tz)) => ("ok", tz.iana_name().unwrap_or("").to_string(), same_answers(tz, &canon)),
+                Ok(Err(_)) => ("err", String::new(), false),
+                Err(_) => ("panic", String::new(), false),
+            };
+            out.push(serde_json::json!({"op":"lookup","cls":"name-case","loader":l.mode,"asked":crate::text::codes(&v),"want":crate::text::codes(&name),
+                                        "st":st,"got":crate::text::codes(&got),"same": if same {1} else {0},"s":v}));
+        }
+        // the database lists the zone under its canonical spelling
+        let is_listed = listed.iter().any(|n| *n == name);
+        out.push(serde_json::json!({"op":"lookup","cls":"available","loader":l.mode,"asked":crate::text::codes(&name),"want":crate::text::codes(&name),
+                                    "st": if is_listed {"ok"} else {"err"},"got":crate::text::codes(&name),"same":1,"s":name}));
+    }
     out
+}
+
+fn same_answers(a: &TimeZone, b: &TimeZone) -> bool {
+    [-5_000_000_000i64, -2_000_000_000, -1_000_000_000, 0, 500_000_000, 1_000_000_000, 1_720_000_000, 1_735_000_000, 2_000_000_000, 4_000_000_000, 40_000_000_000]
+        .iter()
+        .all(|&s| {
+            let t = jiff::Timestamp::from_second(s).unwrap();
+            let (x, y) = (a.to_offset_info(t), b.to_offset_info(t));
+            (x.offset(), x.dst(), x.abbreviation().to_string()) == (y.offset(), y.dst(), y.abbreviation().to_string())
+        })
 }
